@@ -1,0 +1,75 @@
+//go:build verif
+// +build verif
+
+// verif hook for property C13/C14/C15 (add-only, compiled only with -tags verif):
+// canonical dump of the cross references held by a loaded ServerDataConf.
+
+package bfe_route
+
+import (
+	"sort"
+	"strings"
+)
+
+func verifSortedSet(xs []string) string {
+	m := map[string]bool{}
+	for _, x := range xs {
+		m[x] = true
+	}
+	out := make([]string, 0, len(m))
+	for x := range m {
+		out = append(out, x)
+	}
+	sort.Strings(out)
+	if len(out) == 0 {
+		return "-"
+	}
+	return strings.Join(out, ",")
+}
+
+// VerifC13Dump returns
+//
+//	rp=<products with route rules>;hp=<products of host tags>;ht=<host tags of hosts>;tt=<host tags with a product>;
+//	dp=<default product>;vp=<products of vips>;ac=<clusters of advanced rules>;bc=<clusters of basic rules>;cc=<clusters defined>
+//
+// every list sorted and de-duplicated, "-" when empty.
+func VerifC13Dump(s *ServerDataConf) string {
+	t := s.HostTable
+	var rp, hp, ht, tt, vp, ac, bc, cc []string
+	for p := range t.productAdvancedRouteTable {
+		rp = append(rp, p)
+	}
+	for p := range t.productBasicRouteTree {
+		rp = append(rp, p)
+	}
+	for tag, p := range t.hostTagTable {
+		hp = append(hp, p)
+		tt = append(tt, tag)
+	}
+	for _, tag := range t.hostTable {
+		ht = append(ht, tag)
+	}
+	for _, p := range t.vipTable {
+		vp = append(vp, p)
+	}
+	for _, rules := range t.productAdvancedRouteTable {
+		for _, r := range rules {
+			ac = append(ac, r.ClusterName)
+		}
+	}
+	for _, rules := range t.productBasicRouteTable {
+		for _, r := range rules {
+			bc = append(bc, r.ClusterName)
+		}
+	}
+	for c := range s.ClusterTable.clusterTable {
+		cc = append(cc, c)
+	}
+	dp := t.defaultProduct
+	if dp == "" {
+		dp = "-"
+	}
+	return "rp=" + verifSortedSet(rp) + ";hp=" + verifSortedSet(hp) + ";ht=" + verifSortedSet(ht) +
+		";tt=" + verifSortedSet(tt) + ";dp=" + dp + ";vp=" + verifSortedSet(vp) +
+		";ac=" + verifSortedSet(ac) + ";bc=" + verifSortedSet(bc) + ";cc=" + verifSortedSet(cc)
+}
